@@ -285,8 +285,13 @@ def add_region_and_context_region(
 ):
     if code:
         first_line_number, snippet_lines = parse_code(code)
-        snippet_line = snippet_lines[line_range[0] - first_line_number]
-        snippet = om.ArtifactContent(text=snippet_line)
+        # the excerpt is centred on the reported line: the first line of a
+        # multi-line range can lie above it
+        index = line_range[0] - first_line_number
+        if 0 <= index < len(snippet_lines):
+            snippet = om.ArtifactContent(text=snippet_lines[index])
+        else:
+            snippet = None
     else:
         snippet = None
 
